@@ -28,6 +28,8 @@
     flayers <functor> <expr>    the layer-by-layer composite (reference semantics of C09)
     fbox <functor> <box>        `self(box)` on a single box
     fty <functor> <ty>          `self(ty)`
+    fsum <functor> <ty> <ty> <n> expr₁ … exprₙ   `self(Sum([d₁ … dₙ], dom, cod))`, the `Sum` branch
+                                tensor.py:338-340 (Model/TensorSum.lean, `TFunctor.callSum`)
     fgenuine <expr>             1 iff every Swap/Cup/Cap box of the diagram is genuine (hypothesis
                                 of the C09 theorem; WF is guaranteed by C01's `mk?` theorem)
       functor := <n> (name nats)ⁿ <m> (box arrspec)ᵐ     arrspec := A data | S nin nout nats
@@ -45,6 +47,7 @@
 import Driver.Codec
 import Model.TensorBubble
 import Model.TensorNary
+import Model.TensorSum
 
 namespace DV.TensorCmd
 open DV DV.Codec
@@ -352,6 +355,12 @@ def handle (cmd : String) (rest : List String) : Option String :=
           if BFunctor.goodTableB tab && d.boxes.all TFunctor.genuineB then "ok 1" else "ok 0"
   | "fbox" => some <| run (do let f ← functor; let b ← box; pure (f, b)) rest
       fun (f, b) => pTResult (f.box b)
+  | "fsum" => some <|
+      run (do let f ← functor; let a ← ty; let b ← ty; let es ← many expr; pure (f, a, b, es)) rest
+      fun (f, a, b, es) =>
+        match es.mapM (fun e => e.eval) with
+        | .error er => "err " ++ toString er
+        | .ok ds => pTResult (f.callSum a b ds)
   | "fty" => some <| run (do let f ← functor; let t ← ty; pure (f, t)) rest
       fun (f, t) => "ok " ++ pNats (f.ty t)
   | _ => none
